@@ -22,6 +22,8 @@ pub enum AnyTarget {
     SqrtGamma { rate: f64 },
     /// standard normal whose log-density drops by `drop` outside the ball of squared radius `r2` (energy errors near the divergence bound)
     Cliff { r2: f64, drop: f64 },
+    /// `GaussD` plus a constant: a log-density that is large in absolute value (energy differences are tiny next to it)
+    GaussOff { mean: Vec<f64>, prec: Vec<f64>, off: f64 },
 }
 
 pub trait Sc: Float + Element + ElementConversion + std::fmt::Debug + num_traits::FloatConst + Send + Sync + 'static {
@@ -86,6 +88,7 @@ impl AnyTarget {
             AnyTarget::LogBox => "logbox".into(),
             AnyTarget::SqrtGamma { rate } => format!("sqrtgamma {}", h(*rate)),
             AnyTarget::Cliff { r2, drop } => format!("cliff {} {}", h(*r2), h(*drop)),
+            AnyTarget::GaussOff { mean, prec, off } => format!("gaussoff {} {} {} {}", mean.len(), mean.iter().map(|x| h(*x)).collect::<Vec<_>>().join(" "), prec.iter().map(|x| h(*x)).collect::<Vec<_>>().join(" "), h(*off)),
         }
     }
     pub fn name(&self) -> &'static str {
@@ -100,6 +103,7 @@ impl AnyTarget {
             AnyTarget::LogBox => "logbox",
             AnyTarget::SqrtGamma { .. } => "sqrtgamma",
             AnyTarget::Cliff { .. } => "cliff",
+            AnyTarget::GaussOff { .. } => "gaussoff",
         }
     }
     /// f64 reference log-density (the harness's own copy of the target, used to judge visited states)
@@ -133,6 +137,11 @@ impl AnyTarget {
                 let q = x.iter().map(|t| t * t).sum::<f64>();
                 -0.5 * q - if q > *r2 { *drop } else { 0.0 }
             }
+            AnyTarget::GaussOff { mean, prec, off } => {
+                let d = mean.len();
+                let dx: Vec<f64> = (0..d).map(|i| x[i] - mean[i]).collect();
+                -0.5 * (0..d).map(|i| dx[i] * (0..d).map(|j| prec[i * d + j] * dx[j]).sum::<f64>()).sum::<f64>() + off
+            }
         }
     }
     /// true if the implementation evaluates this target (and its autodiff gradient) at full f64 accuracy with exactly the
@@ -146,7 +155,7 @@ impl AnyTarget {
     pub fn dim_fixed(&self) -> Option<usize> {
         match self {
             AnyTarget::Gauss2 { .. } | AnyTarget::Rosen2 { .. } => Some(2),
-            AnyTarget::GaussD { mean, .. } => Some(mean.len()),
+            AnyTarget::GaussD { mean, .. } | AnyTarget::GaussOff { mean, .. } => Some(mean.len()),
             _ => None,
         }
     }
@@ -197,6 +206,13 @@ impl<T: Sc, B: AutodiffBackend> BatchedGradientTarget<T, B> for AnyTarget {
                 (positions.log() + one_minus.log()).sum_dim(1).squeeze::<1>(1)
             }
             AnyTarget::SqrtGamma { rate } => (positions.clone().sqrt().log() - positions.mul_scalar(T::from64(*rate))).sum_dim(1).squeeze::<1>(1),
+            AnyTarget::GaussOff { mean, prec, off } => {
+                let m = vec_tensor::<B, T>(mean, [1, d]).expand([n, d]);
+                let p = vec_tensor::<B, T>(prec, [d, d]);
+                let delta = positions - m;
+                let z = delta.clone().matmul(p);
+                (z * delta).sum_dim(1).squeeze::<1>(1).mul_scalar(T::from64(-0.5)).add_scalar(T::from64(*off))
+            }
             AnyTarget::Cliff { r2, drop } => {
                 let q = (positions.clone() * positions).sum_dim(1);
                 let outside = q.clone().greater_elem(T::from64(*r2));
@@ -255,6 +271,13 @@ pub fn random_target(rng: &mut Sm, family: u64, dim: usize) -> (AnyTarget, usize
         4 => (AnyTarget::Student { nu: rng.uniform(1.0, 8.0) }, dim),
         5 => (AnyTarget::Quartic, dim),
         6 => (AnyTarget::HalfLine { rate: rng.uniform(0.5, 3.0) }, dim),
+        9 => (AnyTarget::SqrtGamma { rate: rng.uniform(0.5, 3.0) }, dim),
+        10 => {
+            let (t, d) = random_target(rng, 3, dim);
+            let AnyTarget::GaussD { mean, prec } = t else { unreachable!() };
+            // the constant is chosen by the caller's scalar type through `off_scale` below: here a placeholder of 1.0 x sign
+            (AnyTarget::GaussOff { mean, prec, off: if rng.coin(0.5) { -1.0 } else { 1.0 } }, d)
+        }
         8 => (AnyTarget::Cliff { r2: rng.uniform(1.0, 9.0), drop: 1000.0 + rng.uniform(0.02, 2.5) }, dim),
         _ => (AnyTarget::LogBox, dim),
     }
